@@ -115,7 +115,7 @@ def obligations(tier):
         return G.opaque_tensor("HALS", G.axis_sizes(V), V.dtype) if isinstance(V, G.GTensor) else __import__("tensorly").solvers.nnls.hals_nnls(UtM, UtU, V, **kw)
     def admm_stub(UtM, UtU, x, dual_var, **kw):
         if isinstance(x, G.GTensor):
-            return (G.opaque_tensor("ADMMX", list(x.shape), x.dtype), G.opaque_tensor("ADMMAUX", [x.shape[1], x.shape[0]], x.dtype), G.opaque_tensor("ADMMDUAL", list(x.shape), x.dtype))
+            return (G.opaque_tensor("ADMMX", list(x.shape), x.dtype), G.opaque_tensor("ADMMAUX", [x.shape[1], x.shape[0]], G._result_dtype(UtM, UtU, x, dual_var)), G.opaque_tensor("ADMMDUAL", list(x.shape), x.dtype))
         from tensorly.solvers.admm import admm as real
         return real(UtM, UtU, x, dual_var, **kw)
     fixed_algos = [("_cp:parafac", _cp.parafac, _cp, dict(return_errors=True), None, False),
@@ -255,7 +255,7 @@ def obligations(tier):
             real_parafac = _p2.parafac
             def inner(X, rank, init=None, **kw):
                 if sym:
-                    return CPTensor((None, [G.opaque_tensor("INNER", list(f.shape), f.dtype) for f in init[1]]))
+                    return CPTensor((None, [G.opaque_tensor("INNER", list(f.shape), G._result_dtype(X, f)) for f in init[1]]))
                 out = real_parafac(X, rank, init=init, **kw)
                 if cp_sh.cur == 0:
                     for f in out[1]:
